@@ -186,8 +186,28 @@ GENERAL_PROBE = (_D + '\\begin{document}\\section{Wq1x}\\label{s1}\\subsection[W
                  '\\begin{verse}[Wq16x] Wq17x\\end{verse}\\begin{quote}<Wq18x>\\end{quote}\\begin{quotation}[Wq19x]\\end{quotation}\\begin{abstract}<Wq20x>\\end{abstract}\n\n'
                  '\\begin{figure}Wq21x\\caption{Wq22x}\\label{f1}\\end{figure}\\begin{table}\\begin{tabular}{l|r}Wq23x&Wq24x\\\\Wq25x&Wq26x\\end{tabular}\\caption[Wq27x]{Wq28x}\\end{table}\n\n'
                  '\\newcommand{\\zqnc}[1]{(#1)}\\zqnc{Wq29x} \\newenvironment{zqnv}{[}{]}\\begin{zqnv}Wq30x\\end{zqnv} $a<b>c$ \\[x^2\\] \\begin{equation}y\\label{e1}\\end{equation}\\ref{e1} \\ref{f1} \\ref{i1}\n\n'
-                 '\\cite{zk}\\begin{thebibliography}{9}\\bibitem{zk} <Wq31x> Wq32x\\bibitem[Wq33x]{zj}Wq34x\\end{thebibliography}\\appendix\\section{Wq35x}\\end{document}')
+                 '\\ifpdf Wq40x\\else Wq41x\\fi \\ifmmode Wq42x\\else Wq43x\\fi \\cite{zk}\\begin{thebibliography}{9}\\bibitem{zk} <Wq31x> Wq32x\\bibitem[Wq33x]{zj}Wq34x\\end{thebibliography}\\appendix\\section{Wq35x}\\end{document}')
 DOCUMENT_CLASSES = ('article', 'book', 'report', 'amsart', 'amsbook', 'beamer', 'memoir', 'jss')
+
+
+def argumentless_commands():
+    """the names of all commands without arguments that a fresh article document knows (setters of built-in switches,
+    declarations, mode changes ...), read from a real context at run time"""
+    import plasTeX
+    from plasTeX.TeX import TeX
+    t = TeX()
+    t.input(_D + '\\begin{document}x\\end{document}')
+    t.parse()
+    out = []
+    for k, v in t.ownerDocument.context.contexts[0].items():
+        try:
+            if isinstance(v, type) and issubclass(v, plasTeX.Macro) and not issubclass(v, plasTeX.Environment) \
+                    and not (getattr(v, 'args', '') or '').strip() and k.isalpha():
+                out.append(k)
+        except Exception:
+            pass
+    common.plastex_reset()
+    return sorted(out)
 
 
 def package_names():
@@ -260,6 +280,19 @@ def cases(seed, tier, shard, nshards):
         n = names[i]
         a = ('\\documentclass{%s}\\begin{document}Wq1x\\end{document}' % n) if n in DOCUMENT_CLASSES else (_D + '\\usepackage{%s}\\begin{document}Wq1x\\end{document}' % n)
         yield {'A': [['package-load:' + n, a]], 'B': ['probe', GENERAL_PROBE], 'render': False, 'renderer': 'HTML5', 'pair': 'load:' + n}
+    # every command without arguments, used once inside a group by an otherwise empty document (a built-in switch or setting that a
+    # command keeps on its class shows in the holders); the quick tier takes every third name, rotating with the seed
+    cmds = argumentless_commands()
+    step = 1 if tier != 'quick' else 3
+    try:
+        off = int(seed) % step
+    except (TypeError, ValueError):
+        off = 0
+    for i in common.sharded(len(cmds), shard, nshards):
+        if i % step != off and not cmds[i].endswith(('true', 'false')):      # (the setters of switches are always taken)
+            continue
+        yield {'A': [['command:' + cmds[i], _D + '\\begin{document}Wq1x {\\%s} Wq2x\\end{document}' % cmds[i]]], 'B': ['probe', GENERAL_PROBE], 'render': False,
+               'renderer': 'HTML5', 'pair': 'command'}
     for i in common.sharded(budget(tier)['n'], shard, nshards):
         r = common.rng_for(seed, PROP, i)
         As = [gen_doc(r) for _ in range(r.randint(1, 4))]
